@@ -131,29 +131,21 @@ Theorem bregman_documented_value : forall (S : RSpace), SpaceLaws S ->
   value (FBregman e p s) x = value e x - value e p - sinner S s (ssub x p).
 Proof. exact bregman_value. Qed.
 
-(* f * s is documented as x |-> f(s x).
-   FULL STATEMENT (for the code as it is, variant v_qp_lin_const = false):
-     forall S e s x, SpaceLaws S -> lin_flags_ok e ->
-       value (f_mul_scalar (mkVariants false) e s) x = value e (sscal S s x)
-   is FALSE of the faithful model: FunctionalQuadraticPerturb(linear f, constant=c)
-   keeps is_linear = True for c <> 0, so Functional.__mul__ builds s*f instead of
-   f(s .)  (finding C09/quadraticperturb-linear-flag-constant). *)
-Theorem argument_scaling_value_refuted :
-  exists (S : RSpace) (e : Rexpr S) (s : R) (x : car S), SpaceLaws S /\
-    value (f_mul_scalar (mkVariants false) e s) x <> value e (sscal S s x).
-Proof. exact qp_mul_scalar_refuted. Qed.
-(* partial: exact precondition = every tree flagged linear is homogeneous *)
-Theorem argument_scaling_value_partial : forall (S : RSpace), SpaceLaws S ->
-  forall vs (e : Rexpr S) s x,
-  (is_linear vs e = true -> forall a y, value e (sscal S a y) = a * value e y) ->
-  value (f_mul_scalar vs e s) x = value e (sscal S s x).
-Proof. exact f_mul_scalar_value. Qed.
-(* with the repaired flag the precondition holds for all trees *)
-Theorem argument_scaling_value_repaired : forall (S : RSpace) (e : Rexpr S),
+(* f * s is documented as x |-> f(s x): holds for ALL trees (Functional.__mul__
+   dispatches on is_linear, and every tree flagged linear is homogeneous, given
+   sound leaf/operator flags).  Until /repo aef4c15 this statement was refuted by
+   FunctionalQuadraticPerturb(linear f, constant=c<>0), which kept is_linear=True
+   (finding quadraticperturb-linear-flag-constant, now fixed). *)
+Theorem argument_scaling_value : forall (S : RSpace) (e : Rexpr S),
   SpaceLaws S -> lin_flags_ok e -> forall s x,
-  value (f_mul_scalar (mkVariants true) e s) x = value e (sscal S s x).
-Proof. exact f_mul_scalar_repaired. Qed.
-Print Assumptions argument_scaling_value_repaired.
+  value (f_mul_scalar e s) x = value e (sscal S s x).
+Proof. exact f_mul_scalar_documented. Qed.
+(* the flag itself is sound for all trees *)
+Theorem linear_flag_sound : forall (S : RSpace) (e : Rexpr S),
+  SpaceLaws S -> lin_flags_ok e -> is_linear e = true ->
+  forall a x, value e (sscal S a x) = a * value e x.
+Proof. exact is_linear_homogeneous. Qed.
+Print Assumptions argument_scaling_value.
 
 (* T1 (the spaces of the correspondence are instances).  Lists of length n with
    one positive weight per entry -- rn with no/constant/array weighting,
